@@ -54,12 +54,20 @@ def regexes(x):
 
 def add_calls(batches, calls, line):
     """_add_procedure_calls on a stub: -> list of chains, or None when anything raises"""
+    out = add_calls2(batches, calls, [], line)
+    return None if out is None else out[0]
+
+
+def add_calls2(batches, calls, named, line):
+    """_add_procedure_calls on a stub: -> (unit.calls, the candidates that end in an entry of INTRINSICS), or None"""
     m = sf()
 
     class Stub:
         pass
     st = Stub()
     st.calls = [list(c) for c in calls]
+    if named:
+        st._intrinsic_named_calls = [list(c) for c in named]
     st.SUBCALL_RE = m.FortranContainer.SUBCALL_RE
     st.CALL_RE = m.FortranContainer.CALL_RE
     try:
@@ -67,7 +75,7 @@ def add_calls(batches, calls, line):
         for b in batches:
             a.add_batch(list(b))
         m.FortranContainer._add_procedure_calls(st, line, a)
-        return [list(c) for c in st.calls]
+        return [list(c) for c in st.calls], [list(c) for c in getattr(st, "_intrinsic_named_calls", [])]
     except Exception:  # noqa
         return None
 
@@ -102,7 +110,12 @@ def entity_of(o):
         pat = getattr(o.parent, "all_types", {})
         if pat and ts not in pat:
             ts = "?" + ts          # the table of the variable's parent does not know the type
-        return ("var", ts, bool(pat))
+        # a plain scalar (numeric or logical, no DIMENSION anywhere, no dummy argument): `name(...)` is then a
+        # function reference for FORD
+        scalar = (not o.dimension and not any(str(a).lower().startswith("dimension") for a in o.attribs)
+                  and o not in getattr(o.parent, "args", [])
+                  and (o.vartype in ("integer", "real", "complex", "logical") or o.vartype.startswith("double")))
+        return ("var", ts, bool(pat), scalar)
     return ("proc", obj_path(o))
 
 
